@@ -68,12 +68,12 @@ func genPlan(t *rapid.T) Plan {
 			p.Steps = append(p.Steps, Step{Kind: "write", Tx: tx})
 		case k < 8:
 			p.Steps = append(p.Steps, Step{Kind: "ckpt", Ckpt: rapid.IntRange(0, 3).Draw(t, "ckpt")})
-		case k < 9:
+		case k < 10:
 			p.Steps = append(p.Steps, Step{Kind: "drop"})
 		case k < 16:
 			p.Steps = append(p.Steps, Step{
 				Kind:  "import",
-				Image: rapid.SampledFrom([]string{IValid, IValid, IValid, ITruncated, ITruncated, IGarbage, IBadMagic, IShortCount, ILongBody, IOtherPageSize, IEmpty}).Draw(t, "image"),
+				Image: rapid.SampledFrom([]string{IValid, IValid, IValid, ITruncated, ITruncated, IGarbage, IBadMagic, IShortCount, ILongBody, IOtherPageSize, IOtherPageSize, IOtherPageSize, IEmpty}).Draw(t, "image"),
 				N:     rapid.SampledFrom([]uint32{1, 2, 3, 17, 255, 256, 257, 300}).Draw(t, "n"),
 				Ver:   uint32(rapid.IntRange(1, 1<<16).Draw(t, "ver")),
 				WAL:   rapid.Bool().Draw(t, "wal"),
